@@ -196,6 +196,12 @@ def run(rep, tier):
     rep.floor = 1000
 
 
+def san_shards(tier):
+    """under Miri a same-thread re-lock is reported by the interpreter itself ("the evaluated program deadlocked")"""
+    scns = all_scenarios()
+    return [("miri", [(500 + i, scns[i::32], "miri") for i in range(32)])]
+
+
 def replay(path):
     d = json.load(open(path))
     cls = d["replay"].get("scenario")
